@@ -11,6 +11,7 @@ import (
 	"verifharness/common"
 	"verifharness/extract"
 	"verifharness/generic"
+	"verifharness/rec"
 )
 
 func main() {
@@ -67,4 +68,5 @@ var genericCmds = map[string]func(common.Args, *common.Out) error{
 	"gwreplay":    generic.WideReplay,
 	"hashreplay":  generic.HashReplay,
 	"curvereplay": generic.CurveReplay,
+	"c17replay":   rec.Replay,
 }
